@@ -396,7 +396,23 @@ func litBigInt(p *parsed, site int) (string, int) {
 	ast.Inspect(p.fn, func(nd ast.Node) bool {
 		if l, ok := nd.(*ast.BasicLit); ok && l.Kind == token.INT {
 			v, err := strconv.ParseInt(l.Value, 0, 64)
-			if err != nil || (v >= -16 && v <= 16) {
+			if err != nil {
+				// constants beyond the int64 range (uint64 masks and sentinels): another one of that kind
+				u, uerr := strconv.ParseUint(l.Value, 0, 64)
+				if uerr != nil || u < 1<<63+100 {
+					return true
+				}
+				if site == -1 || n == site {
+					if desc == "" {
+						desc = fmt.Sprintf("replace integer literal %#x by %#x", u, u-37)
+					}
+					l.Value = fmt.Sprintf("%#x", u-37)
+					done++
+				}
+				n++
+				return true
+			}
+			if v >= -16 && v <= 16 {
 				return true
 			}
 			if site == -1 || n == site {
@@ -789,6 +805,43 @@ func editDeleteCall(p *parsed, site int) (string, int) {
 	return desc, done
 }
 
+// E13: a floating-point literal is nudged in its 8th significant digit (or by one unit when it is
+// at least 1e6): two constants that agree in their first six digits.
+func editFloatLit(p *parsed, site int) (string, int) {
+	n, done := 0, 0
+	desc := ""
+	ast.Inspect(p.fn, func(nd ast.Node) bool {
+		l, ok := nd.(*ast.BasicLit)
+		if !ok || l.Kind != token.FLOAT {
+			return true
+		}
+		v, err := strconv.ParseFloat(l.Value, 64)
+		if err != nil || v == 0 {
+			return true
+		}
+		if site == -1 || n == site {
+			nv := v * (1 + 3e-8)
+			if v >= 1e6 || v <= -1e6 {
+				nv = v + 1
+			}
+			if desc == "" {
+				desc = fmt.Sprintf("float literal %s -> %s", l.Value, strconv.FormatFloat(nv, 'g', -1, 64))
+			}
+			l.Value = strconv.FormatFloat(nv, 'g', -1, 64)
+			if !strings.ContainsAny(l.Value, ".e") {
+				l.Value += ".0"
+			}
+			done++
+		}
+		n++
+		return true
+	})
+	if site >= n {
+		return "", 0
+	}
+	return desc, done
+}
+
 // E12: the type named in an integer conversion is replaced by the next wider one (a
 // "constant-type"/width edit: the value wraps at a different point).
 var convWiden = map[string]string{"int8": "int16", "uint8": "uint16", "int16": "int32", "uint16": "uint32", "int32": "int64", "uint32": "uint64"}
@@ -838,6 +891,7 @@ var editOps = []siteOp{
 	{"E10-step", "edit", editIncDec},
 	{"E11-delete-call", "edit", editDeleteCall},
 	{"E12-conversion-width", "edit", editConvType},
+	{"E13-float-literal", "edit", editFloatLit},
 }
 
 func applyOne(src string, op siteOp, site int) (Variant, int) {
